@@ -34,25 +34,37 @@ CLAIMED = {
             "heap do not get through CBMC), index-time construction of nested columns, non-ASCII case folding."),
     "C09": ("4.C09 / 8.5", "Component contracts of the pruning executor: TermState::advance_to lands exactly on the first posting >= target; "
             "skip_to_block never passes a posting >= target and moves in whole blocks; score_current <= block_upper_bound <= upper_bound "
-            "at every position for block sizes 1..3 (build_block_meta, upper_bound_tf); RankedDoc order; dis_max score combination.",
-            "Trusted: bm25 replaced by a monotone surrogate (CBMC's ln is nondeterministic); 4 postings, tf 1..3. Outside: wand_loop / "
-            "brute_force / the top-k heap (BinaryHeap with symbolic keys does not terminate), the score_adjust interaction, real BM25 numerics."),
+            "at every position for block sizes 1..5 (build_block_meta, upper_bound_tf), also on posting lists that carry stored block metadata "
+            "(advance_to, skip_to_block and the bounds must not be misled by skip data built for another block size); the bounded top-k heap "
+            "(push_top_k + finalize_heap, source slices over a priority-queue model) returns exactly the k best of 4 candidates in (score desc, doc asc) "
+            "order for every score bit pattern; RankedDoc order; dis_max score combination.",
+            "Trusted: bm25 replaced by a monotone surrogate (CBMC's ln is nondeterministic); 4 postings, tf 1..3; std BinaryHeap / slice sort replaced by "
+            "the fixed-capacity models of /verif/models in the heap harness. Outside: the pivot loop of wand_loop and brute_force themselves (tried end to end "
+            "with container models, DESIGN 8.8: the SAT back end runs out of memory at 30 GB for 1 term x 2 postings), hence the score_adjust and "
+            "block-bound interactions between iterations; real BM25 numerics."),
     "C10": ("4.C10", "Ordering and score-combination kernels: SortKey::cmp / SortKeyPart::cmp / compare_* equal a specification comparator "
             "(missing last in both directions, desc reverses, ties by segment then doc) for every value incl. NaN/-0 and every direction; "
             "antisymmetry, transitivity (3 keys x 3 parts in the thorough tier); pick_numeric returns min for asc / max for desc; RankedDoc "
-            "order; dis_max = max + tie*(sum-max) (source slice).",
+            "order; the bounded top-k and page heaps keep exactly the best k / limit entries (source slices over a priority-queue model); "
+            "dis_max = max + tie*(sum-max) (source slice).",
             "Bounded: 2-3 keys x 2-3 parts, 1-byte keyword parts, finite f64 field values. Outside: that keys are built from the right column "
             "values, BM25 numerics, function/script score values, recursive ScoreExpr evaluation."),
     "C11": ("4.C11 / 8.5", "Cursor codec kernels (source slices of PaginationCursor::encode/decode and decode_cursor): fields(layout(c)) = c for every "
             "generation/score bits/segment/doc/returned, rejection above the advance cap and of foreign versions, per-chunk hex decoding of ANY "
-            "two bytes, stale-generation rejection; plus the strict-total-order harnesses shared with C10.",
-            "Trusted: slice extraction by anchor lines. Outside: the hex text produced by encode, the page loop in search (limit+1 fetch, "
-            "saw_cursor, total_hits_estimate), sort cursors (serde_json payload), push_ranked (BinaryHeap)."),
-    "C12": ("4.C12", "Merge kernels only: merge_stats (count/min/max/sum of a 2|1 segmentation equal a single segment, both merge orders) and "
+            "two bytes, stale-generation rejection, the length guard in front of the decode loop (every length 0..64); push_ranked (source slice over a "
+            "priority-queue model) keeps exactly the `limit` best of 3 hits of the default sort, so pages neither skip nor repeat; "
+            "SortPlan::is_score_only admits the score fast path (compact cursor, per-segment top-k by score) only for a single _score key; "
+            "plus the strict-total-order harnesses shared with C10.",
+            "Trusted: slice extraction by anchor lines; std BinaryHeap replaced by the fixed-capacity model in the page-heap harness. Outside: the hex text "
+            "produced by encode, the page loop in search (limit+1 fetch, saw_cursor, total_hits_estimate, cursor filtering in the accept closure), sort cursors "
+            "(serde_json payload), non-default sorts in the page heap."),
+    "C12": ("4.C12", "Merge kernels only: merge_stats (count/min/max/sum of a 2|1 segmentation equal a single segment, both merge orders; the m2 / variance term "
+            "of a 2|2 segmentation equals n*sum(x^2)-(sum x)^2 exactly, both merge orders) and "
             "exact-mode QuantileState push/merge/percentile/percentile_rank (merged per-segment states equal a single state; 0/50/100th percentile).",
-            "Bounded: 3 integer-valued values. Outside: every bucket aggregation (hash-map and JSON based), m2/variance, interpolated percentiles, t-digest mode."),
+            "Bounded: 3 integer-valued values (4 three-bit values for the variance term; segment sizes powers of two so that the f64 arithmetic is exact). "
+            "Outside: every bucket aggregation (hash-map and JSON based), variance for other segment sizes / larger values, interpolated percentiles, t-digest mode."),
     "C16": ("4.C16", "Request-string and number kernels never panic: hex_decode on every well-formed UTF-8 string of 3/4 (6 thorough) bytes, the per-chunk "
-            "step and field extraction of PaginationCursor::decode, wrong-length cursors, char_prefix, wildcard/regex literal prefixes, "
+            "step, the length guard (every length 0..64: no cursor with more chunks than the decode buffer gets to the loop) and field extraction of PaginationCursor::decode, wrong-length cursors, char_prefix, wildcard/regex literal prefixes, "
             "validate_boost / validate_tie_breaker on every f32, the varint decoder on arbitrary bytes.",
             "Bounded: 3-6 byte strings. Outside: the full search pipeline, regex/wildcard compilation, script tokenizer, aggregation config."),
     "C17": ("4.C17", "Checksums and decoders: crc32 detects every single-byte change of a 4-byte (8 thorough) buffer; Wal::replay returns exactly the "
@@ -68,7 +80,7 @@ CLAIMED = {
     "C22": ("4.C22 / 8.5", "Suggestion kernels: char_prefix returns the first min(len, chars) characters of every 4-byte UTF-8 string; bounded_levenshtein "
             "equals the textbook distance with one symbolic character; distance_weight is in (0,1] and strictly decreasing; the option comparator "
             "(source slice) orders by score descending then text and is a strict weak order.",
-            "Trusted: ASCII-only Chars stubs and SmallVec->Vec rewrite for bounded_levenshtein. Outside: dictionary scan, doc_freq, scan cap, segment independence."),
+            "Trusted: ASCII-only Chars stubs and SmallVec->Vec rewrite (applied to whatever bounded_levenshtein's body currently is) for bounded_levenshtein. Outside: dictionary scan, doc_freq, scan cap, segment independence."),
     "C26": ("4.C26 / 8.5", "searchlite_search's handling of the caller's buffer (source slices: argument guard + everything after the search, composed): for "
             "capacities below, at and above the response length no byte outside the buffer is written (canary zones + CBMC pointer checks), ret = min(len, cap-1), "
             "NUL terminated, prefix preserved; null buffer / zero capacity write nothing; null handle/query return 0; the argument guards of add_json / commit / index_open (source slices) return a negative status / null handle for null arguments; closing a null handle.",
@@ -82,15 +94,15 @@ CLAIMED = {
 
 NOT_APPLICABLE = {
     "C01": "every crash point of a real file system under IndexWriter::commit / Index::compact / SegmentWriter (std HashMap, BTreeMap, serde_json, Uuid, Utc::now, FsStorage syscalls): none of it can be encoded by Kani/CBMC (a 2-element hash map alone does not terminate); the log-recovery part is decided under C02",
-    "C04": "the mechanism (the fold of queued operations into pending_new / tombstones in IndexWriter::commit) consists of conditional inserts into maps keyed by String over Document values: every container length becomes symbolic for the symbolic executor (measured on the same pattern: Post-processing out of memory at 25 GB) and dropping a replaced Document drags in the recursive drop glue of serde_json::Value; visibility, rollback, several writers, compaction and reopen need a real index",
+    "C04": "the mechanism (the fold of queued operations into pending_new / tombstones in IndexWriter::commit) is conditional insertion into maps keyed by String over Document values. With the real types the clone / drop glue of Document (BTreeMap<String, serde_json::Value>) does not get through symbolic execution (700 s inside clone_subtree) and cloning String keys read out of a symbolic enum variant exhausts the SAT back end (24 GB); with payload mirrors and map models the slice is decided in 80 s but CBMC reports a counterexample that does not reproduce natively (tool artefact, attic/README.md), which the engine must treat as inconclusive - so no sound check exists; everything else in the statement (readers, rollback, several handles, compaction, reopen) is whole-index behaviour",
     "C03": "a symbolic fault schedule would suit the technique, but the function that must run under it is IndexWriter::commit / Index::compact (hash maps, B-tree, serde_json, Uuid, clock) - out of reach as real code; the error branch is inline and cannot be sliced meaningfully",
     "C05": "quantifies over thread schedules; Kani/CBMC has no thread model for Rust (spawn unsupported)",
     "C06": "quantifies over reader/committer interleavings (RwLock, file handles); no concurrency support in Kani",
-    "C13": "the mechanism (accept closure / collector streaming / cursor filtering) is inline in search_segment and scan_segment over real segments, and the executor (wand.rs) does not terminate under CBMC at even 2 terms x 1 posting (drop glue of posting vectors through the heap)",
+    "C13": "the mechanism (accept closure / collector streaming / cursor filtering) is inline in search_segment and scan_segment over real segments, and the executor loops (wand_loop / match_only_loop) do not get through CBMC even with the BinaryHeap / Vec / sort models and ManuallyDrop postings of DESIGN 8.8 (1 term x 2 postings: 3.1 M symbolic-execution steps, SAT back end out of memory at 30 GB)",
     "C14": "whole-index behaviour: compaction re-ingests stored JSON through SegmentWriter (hash maps, serde_json, files)",
     "C15": "both sides (Schema::validate_document, collect_document/collect_nested) work on BTreeMap<String, serde_json::Value> documents and hashbrown maps with format!-built paths",
     "C18": "collapse_hits / resort_hits / collapse_value are IndexReader methods over real segments and a BTreeMap<String, Vec<_>>",
-    "C20": "the explain/profile paths are inline in IndexReader::search / search_segment over real segments; the executor differential does not terminate under CBMC",
+    "C20": "the explain/profile paths are inline in IndexReader::search / search_segment over real segments; the executor differential (stats on/off) would need wand_loop, which does not get through CBMC even with container models (DESIGN 8.8)",
     "C23": "tokio/axum async HTTP handlers over sockets; Kani has no async runtime or socket model",
     "C24": "tokio/axum async HTTP handlers and middleware; no async/socket model",
     "C25": "a process-spawning CLI, an HTTP server and whole searches behind each entry point",
